@@ -119,6 +119,9 @@ def run(ctx, rep):
     loopstate.rule(ctx, rep, "C08", ['validation::check_containers', 'validation::check_container'])
     import pipeline
     pipeline.rule(ctx, rep, "C08", ['resolve_types', 'check_containers'])
+    rep.rule("LX", "lexical agreement (C03 A10, re-evaluated here): the property quantifies over documents - token classes, their priorities, the keyword rule, comments and white space must be the reference ones (a changed comment / number / keyword regex silently drops or merges members)")
+    import lexical
+    lexical.rules(ctx, rep, "C08", {"trivia", "classes", "priority", "keywords", "tokenizer"})
     rep.assumptions += ["TB-1 rustc MIR", "TB-4 tabulator", "a String-kind node has name \"String\" (grammar wiring rule, C02)",
                         "arity of generic_types per kind is the constructor invariant proved under C01 (D4)",
                         "std iterators (slice::Iter, for_each) visit every element once, in order"]
